@@ -51,6 +51,7 @@ type c14Dst struct {
 }
 
 type c14Ev struct {
+	viaWrite bool // emitted through Logger.Write (the io.Writer face of a Logger)
 	panics   bool // logged with Logger.Panic(): the done callback panics after the write
 	id       string
 	task     int
@@ -277,6 +278,18 @@ func (c14World) Run(prop string, ch *zsim.Choices, trace bool) *RunResult {
 					// special-case
 					base := []error{errors.New("plain"), os.ErrClosed, io.ErrClosedPipe, io.ErrShortWrite, io.EOF}[ch.Intn(5)]
 					ev.errs = append(ev.errs, fmt.Errorf("error of destination %d on %s: %w", d, ev.id, base))
+					if r.noHandler && ch.Chance(1, 8) {
+						// an error value that cannot even be printed (a typed nil whose Error method
+						// dereferences it): with no handler installed the logging call still returns
+						ev.errs[d] = (*c14BadErr)(nil)
+						zsim.Probe("error_whose_Error_panics")
+					}
+				}
+				if !ev.panics && ch.Chance(1, 8) {
+					// the standard library's log package (log.New(logger, ...), http.Server.ErrorLog)
+					// writes through Logger.Write: an event without level like any other
+					ev.viaWrite = true
+					ev.level = zerolog.NoLevel
 				}
 				evs = append(evs, ev)
 				events = append(events, ev)
@@ -400,8 +413,19 @@ func (c14World) Run(prop string, ch *zsim.Choices, trace bool) *RunResult {
 
 var c14FilterLevels = []zerolog.Level{zerolog.DebugLevel, zerolog.InfoLevel, zerolog.WarnLevel, zerolog.ErrorLevel, zerolog.TraceLevel, zerolog.NoLevel, zerolog.Level(5)}
 
+// c14BadErr is an error whose Error method panics when the receiver is nil.
+type c14BadErr struct{ msg string }
+
+func (e *c14BadErr) Error() string { return e.msg }
+
 func emit14(lg *zerolog.Logger, ev *c14Ev) {
 	var e *zerolog.Event
+	if ev.viaWrite {
+		zsim.Probe("event_through_logger_write")
+		child := lg.With().Str("id", ev.id).Logger()
+		child.Write([]byte("m\n"))
+		return
+	}
 	if ev.panics {
 		// Panic() events carry a done callback that panics after the event was written
 		// and after a write error was reported
